@@ -179,6 +179,17 @@ impl Invlpgb {
         })
     }
 
+    /// Verification hook (feature `verif_hooks`): build the handle from explicit CPUID values.
+    /// `new()` asserts CPL 0 and queries CPUID, so it cannot be used by a user-space harness.
+    #[cfg(feature = "verif_hooks")]
+    pub fn new_verif(invlpgb_count_max: u16, tlb_flush_nested: bool, nasid: u32) -> Self {
+        Self {
+            tlb_flush_nested,
+            invlpgb_count_max,
+            nasid,
+        }
+    }
+
     /// Returns the maximum count of pages to be flushed supported by the processor.
     #[inline]
     pub fn invlpgb_count_max(&self) -> u16 {
